@@ -419,6 +419,17 @@ func (g *structGen) Program() (*Program, []byte) {
 		}
 		p.Items = append(p.Items, rule)
 	}
+	if g.opts.MultiRule && g.rng.IntN(3) == 0 {
+		// per-value rules: exit from BEGINFILE / ENDFILE ends the whole run too
+		fc := sgCtx{depth: 1, nums: g.numVars, canExit: true}
+		kind := []string{"BEGINFILE", "ENDFILE"}[g.rng.IntN(2)]
+		b := g.body(fc, g.rng.IntN(2))
+		if g.opts.Exit && g.rng.IntN(2) == 0 {
+			b.Stmts = append(b.Stmts, &If{C: g.cond(fc, 1), Then: &Exit{}}, g.trace(fc))
+			g.stats["exit-in-"+kind]++
+		}
+		p.Items = append(p.Items, &Rule{Kind: kind, Body: b})
+	}
 	ec := sgCtx{depth: 1, nums: g.numVars, canExit: true}
 	end := g.body(ec, g.rng.IntN(2))
 	p.Items = append(p.Items, &Rule{Kind: "END", Body: end})
